@@ -123,6 +123,9 @@ func runAds(hist []byte, cfg adpCfg) (string, []string) {
 		a, par := b&15, int(b>>4)
 		switch a {
 		case 0, 1, 2:
+			if a == 0 && (c.monState == "parked" || c.monState == "busy" || c.buffered) {
+				c.manualRace = true
+			}
 			e := c.startCall("OCI"[a], i)
 			c.settle()
 			if a == 0 && e.res == "ok" {
@@ -196,6 +199,9 @@ func runAds(hist []byte, cfg adpCfg) (string, []string) {
 				return "skip"
 			}
 			wasOpen := c.obsOpen()
+			if c.healedByMonitor() {
+				c.violate("the monitor handles a close report although the transport is open and the application never reopened it (a failure reported twice / a report without a failure)")
+			}
 			c.monState = "busy"
 			c.hmu.Lock()
 			gate := c.monGate
